@@ -11,6 +11,9 @@ import (
 	"fmt"
 	"io"
 	"net/http"
+	"os"
+	"os/exec"
+	"path/filepath"
 	"sort"
 	"strconv"
 	"strings"
@@ -216,6 +219,7 @@ func hasInteresting(v interface{}) bool {
 // one body case: configuration g, backend body in, wire variations
 func bodyCase(stream string, g gwcfg, in bodyIn, r *rng.R, gzipped bool, status int, chunkMode int) {
 	s := bodyScript(g, in, r, gzipped, status, chunkMode)
+	progress(buildBody(stream, g, in, s, crashReply, gzipped, status), "")
 	emitBody(stream, g, in, s, wd.call(g, s), gzipped, status)
 }
 
@@ -233,7 +237,27 @@ func bodyScript(g gwcfg, in bodyIn, r *rng.R, gzipped bool, status int, chunkMod
 	return &script{status: status, headers: hdrs, chunks: split(payload, r, chunkMode), fixedLen: chunkMode == 0 && r.Bool()}
 }
 
+// one case ready to be written
+type caseRec struct {
+	term, sig, canon string
+	js               map[string]interface{}
+	nontrivial       bool
+	counts           []string
+}
+
+func (c caseRec) add() {
+	for _, k := range c.counts {
+		w.Count(k)
+	}
+	w.Add(c.term, c.js, c.sig, c.canon, c.nontrivial)
+}
+
 func emitBody(stream string, g gwcfg, in bodyIn, s *script, rep reply, gzipped bool, status int) {
+	buildBody(stream, g, in, s, rep, gzipped, status).add()
+}
+
+func buildBody(stream string, g gwcfg, in bodyIn, s *script, rep reply, gzipped bool, status int) caseRec {
+	var rec caseRec
 	var body string
 	parsed := false
 	if g.oe != "string" && rep.err == "" {
@@ -259,28 +283,29 @@ func emitBody(stream string, g gwcfg, in bodyIn, s *script, rep reply, gzipped b
 		"backend_body": clip(in.text), "kind": kind,
 		"observed": map[string]interface{}{"status": rep.status, "body": clip(rep.body), "error": rep.err, "content_type": rep.header.Get("Content-Type")},
 	}
-	w.Count("stream:" + stream)
-	w.Count("router:" + g.router)
-	w.Count(fmt.Sprintf("config:%s/coll=%v/%s", g.be, g.coll, g.oe))
-	w.Count(fmt.Sprintf("cc:%d", g.cc))
-	w.Count("kind:" + kind)
+	rec.counts = append(rec.counts, "stream:"+stream)
+	rec.counts = append(rec.counts, "router:"+g.router)
+	rec.counts = append(rec.counts, fmt.Sprintf("config:%s/coll=%v/%s", g.be, g.coll, g.oe))
+	rec.counts = append(rec.counts, fmt.Sprintf("cc:%d", g.cc))
+	rec.counts = append(rec.counts, "kind:"+kind)
 	if gzipped {
-		w.Count("gzip")
+		rec.counts = append(rec.counts, "gzip")
 	}
 	if in.isDoc {
 		d := depthOf(in.doc)
 		switch {
 		case d >= 32:
-			w.Count("depth:32..64")
+			rec.counts = append(rec.counts, "depth:32..64")
 		case d >= 8:
-			w.Count("depth:8..31")
+			rec.counts = append(rec.counts, "depth:8..31")
 		default:
-			w.Count("depth:0..7")
+			rec.counts = append(rec.counts, "depth:0..7")
 		}
 	}
 	nontrivial := in.bad || !in.isDoc || hasInteresting(in.doc) || depthOf(in.doc) >= 8 || gzipped || g.cc > 1
 	canon := fmt.Sprintf("B|%s|%s|%v|%s", g.key(), kind, gzipped, in.text)
-	w.Add(term, js, "", canon, nontrivial)
+	rec.term, rec.js, rec.canon, rec.nontrivial = term, js, canon, nontrivial
+	return rec
 }
 
 func flatten(h http.Header) [][2]string {
@@ -318,6 +343,7 @@ func noopCase(stream string, router string, cc int, raw bool, s *script) {
 	g := gwcfg{router: router, be: "no-op", oe: "no-op", cc: cc, raw: raw}
 	ref := wd.direct(s)
 	checkRef(ref, s)
+	progress(buildNoop(stream, router, cc, raw, s, ref, crashReply), "")
 	emitNoop(stream, router, cc, raw, s, ref, wd.call(g, s))
 }
 
@@ -328,6 +354,11 @@ func checkRef(ref reply, s *script) {
 }
 
 func emitNoop(stream string, router string, cc int, raw bool, s *script, ref, rep reply) {
+	buildNoop(stream, router, cc, raw, s, ref, rep).add()
+}
+
+func buildNoop(stream string, router string, cc int, raw bool, s *script, ref, rep reply) caseRec {
+	var rec caseRec
 	sent := flatten(ref.header)
 	got := flatten(rep.header)
 	obs := fmt.Sprintf("{| n_status := %s; n_headers := %s; n_body := %s; n_err := %s |}",
@@ -350,26 +381,27 @@ func emitNoop(stream string, router string, cc int, raw bool, s *script, ref, re
 		"observed": map[string]interface{}{"status": rep.status, "headers": got, "body_bytes": len(rep.body), "error": rep.err,
 			"body_equal": bytes.Equal(rep.body, s.body()), "body_head": clip(head(rep.body, 64))},
 	}
-	w.Count("stream:" + stream)
-	w.Count("router:" + router)
-	w.Count("config:no-op")
-	w.Count(fmt.Sprintf("cc:%d", cc))
+	rec.counts = append(rec.counts, "stream:"+stream)
+	rec.counts = append(rec.counts, "router:"+router)
+	rec.counts = append(rec.counts, "config:no-op")
+	rec.counts = append(rec.counts, fmt.Sprintf("cc:%d", cc))
 	switch n := s.total(); {
 	case n == 0:
-		w.Count("noop-size:0")
+		rec.counts = append(rec.counts, "noop-size:0")
 	case n <= 32*1024:
-		w.Count("noop-size:1..32KiB")
+		rec.counts = append(rec.counts, "noop-size:1..32KiB")
 	case n <= 128*1024:
-		w.Count("noop-size:32..128KiB")
+		rec.counts = append(rec.counts, "noop-size:32..128KiB")
 	default:
-		w.Count("noop-size:128..512KiB")
+		rec.counts = append(rec.counts, "noop-size:128..512KiB")
 	}
 	hs := ""
 	for _, kv := range s.headers {
 		hs += kv[0] + "=" + kv[1] + ";"
 	}
 	canon := fmt.Sprintf("N|%s|%d|%v|%d|%s|%d|%d|%v|%s", router, cc, raw, s.status, hs, s.total(), len(s.chunks), s.fixedLen, token(s.body()))
-	w.Add(term, js, sig, canon, s.total() > 32*1024 || len(s.chunks) > 1 || s.status != 200 || len(s.headers) > 2)
+	rec.term, rec.js, rec.sig, rec.canon, rec.nontrivial = term, js, sig, canon, s.total() > 32*1024 || len(s.chunks) > 1 || s.status != 200 || len(s.headers) > 2
+	return rec
 }
 
 func head(b []byte, n int) []byte {
@@ -460,12 +492,86 @@ var headerSets = [][][2]string{
 	{{"Content-Type", "text/html"}, {"Content-Language", "en, de"}, {"Content-Disposition", "attachment; filename=\"a b.txt\""}, {"Accept-Ranges", "bytes"}, {"Age", "0"}, {"Expires", "0"}, {"Pragma", "no-cache"}, {"X-Utf8", "café"}, {"X-Long", strings.Repeat("v", 600)}},
 	{{"Content-Type", "application/octet-stream"}, {"Content-Encoding", "br"}, {"X-Content-Type-Options", "nosniff"}, {"Strict-Transport-Security", "max-age=1"}},
 	{},
+	// names the gateway sets itself (the backend is another KrakenD node, or a front middleware set them):
+	// the backend's lines must arrive too, next to the gateway's own values
+	{{"Content-Type", "application/json"}, {"X-Krakend", "Version 2.7.0"}, {"X-Krakend-Completed", "true"}},
+	{{"Content-Type", "text/plain"}, {"X-Krakend-Completed", "false"}, {"Cache-Control", "public, max-age=60"}, {"Vary", "Accept-Encoding"}, {"Server", "krakend-node"}},
+	{{"Content-Type", "application/octet-stream"}, {"x-krakend", "Version lower"}, {"x-krakend-completed", "true"}, {"Date", "Sun, 06 Nov 1994 08:49:37 GMT"}, {"Vary", "Origin"}},
+	{{"X-Krakend", "a"}, {"X-Krakend", "b"}, {"X-Krakend-Completed", "true"}, {"X-Krakend-Completed", "true"}, {"Cache-Control", "no-store"}, {"Cache-Control", "private"}, {"Server", "s1"}},
 }
+
+const ownedFrom = 8 // headerSets[ownedFrom:] carry gateway-owned names
 
 var statuses = []int{200, 201, 202, 203, 206, 207, 226, 299, 300, 304, 400, 401, 403, 404, 409, 410, 418, 422, 429, 451, 499, 500, 501, 502, 503, 504, 511, 599, 204, 205}
 
+// what the client of a dead gateway sees
+var crashReply = reply{err: "no reply: the gateway process died"}
+
+// progress records (worker) the case that is about to run, as it would look if the gateway died
+// while serving it: an unrecoverable runtime error in the code under test (e.g. "fatal error:
+// concurrent map writes") must end as a failing case, not as a dead generator
+func progress(c caseRec, note string) {
+	if cfg.Extra != "worker" {
+		return
+	}
+	js := map[string]interface{}{}
+	for k, v := range c.js {
+		js[k] = v
+	}
+	if note != "" {
+		js["batch"] = note
+	}
+	b, _ := json.Marshal(map[string]interface{}{"term": c.term, "js": js, "sig": c.sig, "canon": c.canon})
+	os.WriteFile(filepath.Join(cfg.Dir, "progress.json"), b, 0o644)
+}
+
+// supervise runs the generator proper in a child process
+func supervise() {
+	args := []string{"--tier", cfg.Tier, "--seed", fmt.Sprint(cfg.Seed), "--out", cfg.Dir, "--only", fmt.Sprint(cfg.Only), "--extra", "worker"}
+	cmd := exec.Command(os.Args[0], args...)
+	var errBuf bytes.Buffer
+	cmd.Stdout = os.Stdout
+	cmd.Stderr = &errBuf
+	err := cmd.Run()
+	trace := errBuf.String()
+	if err == nil {
+		os.Stderr.WriteString(trace)
+		return
+	}
+	if len(trace) > 4000 {
+		trace = trace[:4000]
+	}
+	pb, perr := os.ReadFile(filepath.Join(cfg.Dir, "progress.json"))
+	var p struct {
+		Term, Sig, Canon string
+		Js               map[string]interface{}
+	}
+	if perr != nil || json.Unmarshal(pb, &p) != nil || p.Term == "" {
+		os.Stderr.WriteString(trace)
+		fmt.Fprintln(os.Stderr, "C13 worker died before its first case:", err)
+		os.Exit(2)
+	}
+	files, _ := filepath.Glob(filepath.Join(cfg.Dir, "cases*"))
+	for _, f := range files {
+		os.Remove(f)
+	}
+	os.Remove(filepath.Join(cfg.Dir, "meta.json"))
+	c2 := cfg
+	c2.Only = -1
+	w = out.NewWriter(c2, "Verif.Corr.C13", 300)
+	p.Js["gateway_died"] = fmt.Sprintf("%v", err)
+	p.Js["trace"] = trace
+	w.Count("gateway-died")
+	w.Add(p.Term, p.Js, p.Sig, p.Canon, true)
+	w.Close("the generator's worker process (real gateways, backend and client in one process) died with an unrecoverable runtime error while serving the recorded input; the single case is that input with the observation 'no reply'", false)
+}
+
 func main() {
 	cfg = out.ParseFlags("C13")
+	if cfg.Extra == "" {
+		supervise()
+		return
+	}
 	gin.SetMode(gin.ReleaseMode)
 	r := rng.New(cfg.Seed)
 	w = out.NewWriter(cfg, "Verif.Corr.C13", 300)
@@ -536,6 +642,17 @@ func main() {
 		}
 	}
 
+	for hi := ownedFrom; hi < len(headerSets); hi++ {
+		for _, rt := range routers {
+			for k := 0; k < 4; k++ {
+				var b []byte
+				if k != 1 {
+					b = randBytes(r, []int{300, 0, 40000, 7}[k], 1)
+				}
+				noopCase("corpus", rt, 1, k%2 == 0, &script{status: []int{200, 202, 404, 500}[k], headers: headerSets[hi], chunks: chunkBody(b, r, k), fixedLen: k == 3})
+			}
+		}
+	}
 	// instance reuse, sequential: ONE long-lived gateway per configuration (all gateways of this
 	// generator are built once and serve every case of their configuration) is sent consecutive
 	// requests whose documents / statuses / header sets / bodies differ: anything kept from an
@@ -578,6 +695,10 @@ func main() {
 					{status: 204, headers: headerSets[3]},
 					{status: 200, headers: headerSets[1], chunks: [][]byte{[]byte("small")}, fixedLen: true},
 					{status: 207, headers: headerSets[4], chunks: chunkBody(randBytes(r, 5000, 2), r, 3)},
+					{status: 202, headers: headerSets[ownedFrom], chunks: [][]byte{[]byte("payload")}},
+					{status: 200, headers: headerSets[0], chunks: [][]byte{[]byte("plain")}},
+					{status: 200, headers: headerSets[ownedFrom+3], chunks: chunkBody(randBytes(r, 9000, 1), r, 1)},
+					{status: 404, headers: headerSets[ownedFrom+2]},
 				}
 				for _, sc := range seq {
 					noopCase("reuse-seq", rt, 1, raw, sc)
@@ -663,6 +784,12 @@ func main() {
 						}
 					}
 				}(gi)
+			}
+			note := fmt.Sprintf("one gateway hit by %d goroutines x %d requests over %d distinct backend replies (this one is reply 0)", goroutines, iters, distinct)
+			if cf.kind == 4 {
+				progress(buildNoop("reuse-concurrent", cf.g.router, 1, cf.g.raw, scs[0], refs[0], crashReply), note)
+			} else {
+				progress(buildBody("reuse-concurrent", cf.g, ins[0], scs[0], crashReply, gzs[0], scs[0].status), note)
 			}
 			close(start)
 			wg.Wait()
@@ -833,6 +960,7 @@ func main() {
 		}
 	}
 
+	os.Remove(filepath.Join(cfg.Dir, "progress.json"))
 	w.Meta["backend_calls"] = wd.calls.Load()
 	w.Close("regression corpus (22 documents: 40 tricky number literals, escaped/astral strings, reserved keys, empty containers; F-C13 input) x sensible configurations x gin/mux x concurrent_calls 1..3; exhaustive scope: 2 routers x 3 encodings x is_collection x 3 output encodings x cc 1..3 x 6 kinds of document, and every listed status x router for no-op; random documents (own serialiser: random whitespace, escape styles, member order, chunking, gzip, 200/201), nesting depth 1..64, string bodies (binary, format verbs), no-op bodies 0 B..512 KiB around the 4 KiB/32 KiB/64 KiB buffer sizes in flushed chunks with 8 header sets and 28 statuses; malformed bodies; nontrivial = number literal not reproducible through float64, non-ASCII/escaped text, depth >= 8, gzip, cc > 1, multi-chunk or > 32 KiB no-op body", true)
 }
